@@ -48,3 +48,119 @@ def real_visit(req):
 
 OPS = {'visit': real_visit}
 RT = {}
+
+
+# ----------------------------------------------------------------------------- programs of the forwarding grammar
+from . import progs  # noqa: E402
+
+
+def own_desc(p):
+    ps = [core.P(x, 'pk') for x in p['params']] + [core.P(p['va'], 'vp'), core.P(p['vk'], 'vk')]
+    return core.D(ps, fn=1)
+
+
+def marker_str(expr, p):
+    """canonical marker string (as Model/Protocol.lean showRM) of a callee expression"""
+    node = ast.parse(expr, mode='eval').body
+
+    def go(n):
+        if isinstance(n, ast.Name):
+            return ('R' if n.id in p['params'] else 'M') + str(core.NAMES.id(n.id))
+        if isinstance(n, ast.Attribute):
+            return 'A(%s.%d)' % (go(n.value), core.NAMES.id(n.attr))
+        return 'U'
+    return go(node)
+
+
+def prog_line(op, p):
+    toks = progs.prog_tokens(p)
+    if op in ('render', 'pvisit', 'ptruth', 'progok'):
+        return '%s %s' % (op, ' '.join(toks))
+    # pauto / pdeclared: resolution table
+    tbl = []
+    for s in _all_fwds(p['body']):
+        m = marker_str(s[1], p)
+        k = s[7]
+        if p['route'] == 'param':
+            continue
+        if m not in [t[0] for t in tbl]:
+            tbl.append((m, core.sig_line(core.D(p['callees'][k], fn=10 + k))))
+    if p['route'] == 'param':
+        tbl.append(('R%d' % core.NAMES.id('cb'), core.sig_line(core.D(p['callees'][0], fn=10))))
+    pm = 'A(M%d.%d)' % (core.NAMES.id('functools'), core.NAMES.id('partial'))
+    return '%s %s %d %s %s %s' % (op, pm, len(tbl), ' '.join('%s %s' % t for t in tbl), core.sig_line(own_desc(p)), ' '.join(toks))
+
+
+def _all_fwds(stmts):
+    for s in stmts:
+        if s[0] == 'fwd':
+            yield s
+        elif s[0] in ('block', 'nested'):
+            for t in _all_fwds(s[1]):
+                yield t
+
+
+def wrapper_ast(p):
+    src = '\n'.join(progs.wrapper_source(p)) + '\n'
+    return ast.parse(src).body[0]
+
+
+def real_render(req):
+    return ('ok', ' '.join(treeser.ser(wrapper_ast(req[1]), [], root=True)))
+
+
+def real_pvisit(req):
+    t = wrapper_ast(req[1])
+    try:
+        v = _autoforwards.CallListerVisitor(t)
+    except Exception as e:  # noqa
+        return core.canon_exc(e)
+    return treeser.canon_calls([c for c in v.calls if c.use_varargs or c.use_varkwargs])
+
+
+def truth_records(p):
+    """canonical records from the PYTHON ground truth (independent of Lean and of the visitor)"""
+    out = []
+    for (s, ua, uk, ha, hk) in progs.py_truth(p):
+        _, callee, npos, kws = s[:4]
+        va = ('R%d' % core.NAMES.id(p['va'])) if ua else ('U' if ha else '-')
+        vk = ('R%d' % core.NAMES.id(p['vk'])) if uk else ('U' if hk else '-')
+        out.append('%s|%s|%s|%s|%s|%d%d%d%d' % (
+            marker_str(callee, p), ','.join(['U'] * npos) or '_',
+            ','.join('%d=U' % core.NAMES.id(k) for k in kws) or '_', va, vk, ua, uk, ha, hk))
+    return ('ok', len(out), ';'.join(out) or '_')
+
+
+def real_ptruth(req):
+    return truth_records(req[1])
+
+
+def load_prog(p, execute=True, decorators=()):
+    src = progs.module_source(p, execute=execute, decorators=decorators)
+    mod, fname = progs.load_module(src)
+    w = getattr(mod, 'wrapper', None)
+    if p['route'] == 'closure':
+        w = mod.target
+    if p['route'] == 'self':
+        w = mod.C.__dict__['wrapper']
+    core.register_callable(w, 1)
+    for k in range(len(p['callees'])):
+        g = getattr(mod, 'g%d' % k)
+        core.register_callable(g, 10 + k)
+        if p['route'] == 'self':
+            core.register_callable(mod.C.__dict__['m%d' % k], 10 + k)
+    if p['route'] == 'param':
+        core.register_callable(mod.target, 2)
+    return mod, fname
+
+
+def real_pauto(req):
+    p = req[1]
+    mod, fname = load_prog(p)
+    try:
+        return core.run_real(sigtools.signature, mod.target)
+    finally:
+        progs.unload(fname)
+
+
+OPS.update({'render': real_render, 'pvisit': real_pvisit, 'ptruth': real_ptruth, 'pauto': real_pauto})
